@@ -243,11 +243,14 @@ def archive_features(members, staged_links=()):
 
 def manifest_features(entries):
     """entries: ordered [(key, method, ...)].  N: a relative key that leaves the instance directory; A: an absolute
-    key; L: a key that passes through an earlier key deployed with method link."""
+    key; L: a key that passes through an earlier key deployed with method link; C: the key `conf` deployed with method
+    link (deployment itself writes the workflow definition into <instance>/conf after applying the manifest)."""
     f = set()
     linked = []
     for e in entries:
         key, method = e[0], e[1]
+        if not key.startswith('/') and _norm(key) == 'conf' and method == 'link':
+            f.add('C')
         if key.startswith('/'):
             f.add('A')
         elif lexically_escapes(key) or _norm(key) == '.':
@@ -368,9 +371,15 @@ def simulate_archive(members, dest, existing_files=(), existing_dirs=(), existin
     return reach, flags
 
 
+# the files that deploying a package / creating an instance writes into <instance>/conf
+DEPLOY_CONF_FILES = ('flowir_package.yaml', 'dsl.yaml', 'flowir_instance.yaml', 'manifest.yaml')
+
+
 def manifest_targets(entries, inst, sources):
     """entries: ordered [(key, method, source index)]; inst: absolute path of the instance directory; sources:
-    absolute paths of the source folders. Returns the Reach of a deployment that trusts the keys."""
+    absolute paths of the source folders. Returns the Reach of a deployment that trusts the keys (including the
+    files deployment itself writes into <instance>/conf once the manifest has been applied: if `conf` has become a
+    link, exactly those files in the link's target, and the target's own mtime)."""
     v = VFS()
     v.mkdirs(inst)
     for s in sources:
@@ -389,4 +398,9 @@ def manifest_targets(entries, inst, sources):
         reach.touch_with_parent(phys, not (node is not None and node[0] == 'd'))
         if node is None:
             v.nodes[phys] = ('l', sources[si]) if method == 'link' else ('d',)
+    conf = v.resolve(posixpath.join(inst, 'conf'), True, [])
+    if conf is not None and not _inside(conf, inst):
+        reach.touch(conf, False)
+        for name in DEPLOY_CONF_FILES:
+            reach.touch(posixpath.join(conf, name), False)
     return reach
